@@ -73,6 +73,15 @@ def run(ctx, chk, tier):
             for o in raises(outs):
                 if not o.pc:
                     chk.violation("R06.1", EERQ, tag + ":raises", show(o.value, 80), "eer() returns for non-empty classes", ctx.where(EERQ))
+                    continue
+                # a refusal that depends on how many scores a (non-empty) class has, or on the declared easy counts, rejects inputs of the quantifier
+                from ..terms import atoms_of as _atoms
+                conds = [(c, t) for c, t in o.pc if any(a in (HP, HN, EP, EN) for a in [c] + list(_atoms(c)))]
+                sized = [c for c, t in conds if not (isinstance(c, App) and c.fn in ("eq0", "ne0") and len(_atoms(c)) <= 2 and to_poly(c.args[0]) is not None
+                                                      and to_poly(c.args[0]).const_value() == 0)]
+                if sized:
+                    chk.violation("R06.1", EERQ, tag + ":refusal", "%s when %s" % (show(o.value, 80), pc_text(o)[:160]),
+                                  "eer() returns a pair whenever both classes are non-empty (a class of a single score included)", ctx.where(EERQ))
             # separating extremes for the zero clause
             lo_side, hi_side = (App("getitem", (NEG, Const(-1))), App("getitem", (POS, Const(0)))) if sc == "pos" else (App("getitem", (POS, Const(-1))), App("getitem", (NEG, Const(0))))
             strict = cmp0("lt", to_poly(sub(lo_side, hi_side)))
